@@ -646,6 +646,14 @@ pub fn sites() -> Vec<Site> {
         let exp = if *m.z() >= Z::from(1) { exact(&[1]) } else { Expect::None };
         main_only(format!("{}#d8 1\n", bankdef(&format!(" bits = 8\n addr = 0\n addr_end = {}\n outp = 0", m.e()))), exp)
     }));
+    // the bank's size is addr_end - addr: an end below the start (N > 0x100) is a magnitude the word cannot hold
+    v.push(site("bankdef-addr-above-addr_end", Value, "#bankdef a { bits = 8, addr = N, addr_end = 0x100, outp = 0 } / #d8 1", |m| {
+        let exp = if *m.z() < Z::from(0x100) { exact(&[1]) } else { Expect::None };
+        main_only(format!("{}#d8 1\n", bankdef(&format!(" bits = 8\n addr = {}\n addr_end = 0x100\n outp = 0", m.e()))), exp)
+    }));
+    v.push(site("bankdef-negative-addr-with-addr_end", Value, "#bankdef a { bits = 8, addr = -N, addr_end = 0x100, outp = 0 } / #d8 1", |m| {
+        main_only(format!("{}#d8 1\n", bankdef(&format!(" bits = 8\n addr = -{}\n addr_end = 0x100\n outp = 0", m.e()))), Expect::None)
+    }));
     v.push(site("bankdef-outp", Value, "#bankdef a { bits = 8, addr = 0, outp = N } / #d8 1", |m| {
         let z = m.z();
         main_only(format!("{}#d8 1\n", bankdef(&format!(" bits = 8\n addr = 0\n outp = {}", m.e()))), Expect::Sparse { total_bits: z + 8, ones: vec![z + 7] })
